@@ -66,7 +66,8 @@ def run(ctx):
   ks = (2, 3) if ctx.quick else (2, 3, 4)
   for n in range(1, maxlen + 1):
     for vals in itertools.product(range(4), repeat=n):
-      for hw, hm, hx, hd in itertools.product([False, True], repeat=4):
+      for hw, hm, hx, hd0 in itertools.product([False, True], [False, True], [False, True], [None, 0, 1, 2]):
+        hd = hd0 is not None
         for k in ks:
           for mode in ("quantiles", "uniform"):
             # weighted: mixed {1,2}, constant, and one dominating entry (several quantiles then fall on the same value
@@ -75,7 +76,7 @@ def run(ctx):
                                              tuple(50 if i == (sum(vals) + k) % n else 1 for i in range(n))]
             for w in ws:
               red = "mean" if (sum(vals) + k) % 2 else "sum"
-              inp = mk(vals, w, hw, 1 if hm else None, 2 if hx else None, 0 if hd else None, k, mode, red)
+              inp = mk(vals, w, hw, 1 if hm else None, 2 if hx else None, hd0, k, mode, red)
               if not nonempty(inp):
                 continue
               ev = call(tfl, premade_lib, inp)
@@ -102,6 +103,8 @@ def run(ctx):
     cmin = int(rng.integers(-60, 60)) if rng.random() < 0.4 else None
     cmax = (int(rng.integers(0, 120)) + (cmin or 0)) if rng.random() < 0.4 else None
     dflt = int(vals[0]) if rng.random() < 0.3 else None
+    if dflt is None and j % 7 == 0 and (cmin is not None or cmax is not None):
+      dflt = cmin if cmin is not None else cmax                  # a default value sitting exactly on a clip bound
     inp = mk(vals, w, hw, cmin, cmax, dflt, int(rng.integers(2, 11)), str(rng.choice(["quantiles", "uniform"])),
              str(rng.choice(["mean", "sum"])))
     if not nonempty(inp):
